@@ -1090,8 +1090,11 @@ static bool canResend(ssl_t *ssl)
     }
     else
     {
-#if 0
-        /* Client tests */
+#if 1
+        /* Client tests: only resend on a flight boundary.  In the middle
+           of the server's flight (e.g. ServerHello parsed, Certificate still
+           missing) there is no client flight to rebuild for the current
+           state and sslEncodeResponse would run server-side encoding code. */
         if (ssl->hsState == SSL_HS_SERVER_HELLO)
         {
             canSend = 1;
